@@ -34,13 +34,15 @@ SPEC = {
                     'merchant, category and tag texts have no surrounding blanks and tags contain no comma'],
 }
 
-LITS = ['NETFLIX', 'UBER', 'EATS', 'STAR', 'BUCKS', 'AMZN', 'MKTP', 'COSTCO', 'WHOLE', 'FOODS', 'GAS', 'CAF', 'SQ', 'STRASSE', 'FINE']
+LITS = ['NETFLIX', 'UBER', 'EATS', 'STAR', 'BUCKS', 'AMZN', 'MKTP', 'COSTCO', 'WHOLE', 'FOODS', 'GAS', 'CAF', 'SQ', 'STRASSE', 'FINE', 'CAF\u00c9', 'CAFE\u0301', 'ROMA']
 DESCS = ['NETFLIX.COM Uber eats', 'star-BUCKS  *7', "O'Reilly Café AMZN Mktp", 'UBER EATS 42 SQ *COSTCO', 'Netflix', 'uber   eats', 'COSTCO GAS 100',
          'AMZN Mktp US*7 NETFLIX', 'SQ *STAR bucks REF:77', 'UBER TRIP 7', 'WHOLE FOODS MARKET #12 WA', 'STARBUCKS STORE 42', 'costco whole foods',
          'say "GAS" now', 'back\\slash COSTCO', 'UBERUBER', 'A+B COSTCO (x)', 'GASGAS 7', 'UBEREATS', 'Plain Unknown Vendor 99', 'EATS\tUBER',
          'COSTCO7', 'COSTCO x', 'NETFLIX-X', 'STAR 9', 'GAS Z',
          # letters whose upper-case form is longer than the letter (the CSV path matches against description.upper())
-         'Hauptstra\u00dfe 5 UBER', 'HAUPTSTRASSE 7 GAS', '\ufb01ne FOODS market', 'Stra\u00dfe']
+         'Hauptstra\u00dfe 5 UBER', 'HAUPTSTRASSE 7 GAS', '\ufb01ne FOODS market', 'Stra\u00dfe',
+         # the same accented word spelled with a composed letter and as letter + combining mark (macOS / iOS exports): different texts to a pattern
+         'CAF\u00c9 ROMA 12', 'CAFE\u0301 ROMA 12', 'caf\u00e9 roma UBER', 'cafe\u0301 roma GAS']
 
 
 def gen_pattern(rnd):
